@@ -3,6 +3,7 @@ CONSTANTS
   Bug = "ee_sumrange"
   Fmts <- FmtsAll
   CaseSet <- CasesQuick
+  MkCase <- MCMkCase
   MaxCorrupt = 1
   CorruptPos <- CorPosQuick
   CorruptVals <- AllBytes
